@@ -3,28 +3,30 @@
    model's (complete sweeps of their finite domains, evaluated through the
    GoLite semantics). Error values are numbers: 0 = nil, 1 = an error that is
    none of the package's Error constants, then the constants in order of
-   declaration (src_error_codes). Only statements, closed by [exact]. *)
+   declaration (src_error_codes). Only statements, closed by [exact].
+   [call_with src_pure no_fns] runs a function of the translated program with no
+   external functions under it. *)
 From Coq Require Import List NArith String.
 Import ListNotations.
 From Modbus Require Import Base.Bytes Model.GoLite Gen.SrcPure Model.Wire Model.Client.
-From Modbus Require Import Proofs.SrcMiscP.
+From Modbus Require Import Proofs.GoLiteLinkP Proofs.SrcMiscP.
 Open Scope string_scope.
 Open Scope N_scope.
 
 (* expectedResponseLenth(function code, third byte): all 2^16 inputs *)
 Theorem c02s_expected_len : forall fuel fc b2, fc < 256 -> b2 < 256 ->
-  call src_pure fuel "expectedResponseLenth" [VN fc; VN b2] =
+  call_with src_pure no_fns fuel "expectedResponseLenth" [VN fc; VN b2] =
   match expected_len fc b2 with
   | Some m => GoLite.Ok [VN m; VN 0]
   | None => GoLite.Ok [VN 0; VN (code_of "ErrProtocolError")]
   end.
-Proof. exact src_expectedResponseLenth_ok. Qed.
+Proof. exact (src_expectedResponseLenth_ok no_fns). Qed.
 Print Assumptions c02s_expected_len.
 
 (* mapExceptionCodeToError: all 256 codes *)
 Theorem c02s_exception_map : forall fuel c, c < 256 ->
-  call src_pure fuel "mapExceptionCodeToError" [VN c] = GoLite.Ok [VN (err_value (exc_err c))].
-Proof. exact src_mapExceptionCodeToError_ok. Qed.
+  call_with src_pure no_fns fuel "mapExceptionCodeToError" [VN c] = GoLite.Ok [VN (err_value (exc_err c))].
+Proof. exact (src_mapExceptionCodeToError_ok no_fns). Qed.
 Print Assumptions c02s_exception_map.
 
 (* a known code gives its documented, named error; the names are distinct, non-nil values *)
